@@ -7,8 +7,8 @@ package socks5
 // send; bytes pipelined behind the CONNECT request reach the upstream unmodified and in order,
 // and the upstream's bytes reach the client unmodified.
 //
-// SUT (real): Server.dispatch / negotiate / handleTCP / handleUDP and the txthinking/socks5
-// codec. Stubs: client.Client mock (records calls, returns one end of a simnet stream whose
+// SUT (real): Server.dispatch / negotiate / handleTCP / handleUDP (up to its socket bind) and the
+// txthinking/socks5 codec. Stubs: client.Client mock (records calls, returns one end of a simnet stream whose
 // other end is a target task; UDP() records and fails), AuthFunc table, simnet streams.
 // One op = one client connection, executed one after the other (a connection is a sequential
 // protocol; its nondeterminism is the byte stream, its chunking and who closes when).
@@ -284,7 +284,15 @@ func (w *c18SWorld) Close() error { return nil }
 
 func (w *c18SWorld) TCPRequest(addr net.Addr, reqAddr string)            { w.x.Ev("log TCPRequest %s", reqAddr) }
 func (w *c18SWorld) TCPError(addr net.Addr, reqAddr string, err error) { w.x.Ev("log TCPError %s %v", reqAddr, err != nil) }
-func (w *c18SWorld) UDPRequest(addr net.Addr)                          { w.x.Ev("log UDPRequest") }
+func (w *c18SWorld) UDPRequest(addr net.Addr) {
+	x, c := w.x, w.cur
+	x.Ev("conn%d log UDPRequest auth=%v", c.id, c.authTrue)
+	x.Probe("udp-setup-started")
+	// the UDP relay set-up (socket bind, then HyClient.UDP()) starts here
+	if w.authOn && (!c.authTrue || !c.exp.authOK) {
+		x.Violate("unauth-udp-setup", "conn%d: the inbound started to set up a UDP relay although the AuthFunc has not accepted credentials on this connection (AuthFunc calls: %d; client stream %s)", c.id, c.authCalls, c18Hex(c.stream))
+	}
+}
 func (w *c18SWorld) UDPError(addr net.Addr, err error)                 { w.x.Ev("log UDPError %v", err != nil) }
 
 func c18Down(id int, n int) []byte {
@@ -463,19 +471,34 @@ func c18GenSocks(r *hysim.Rand, tier string) *hysim.Script {
 	c18YieldCfg(r, sc, 100000)
 	sc.Cfg["auth"] = int64(r.Pick(1, 1, 1, 0))
 	sc.Cfg["noudp"] = int64(r.Pick(0, 0, 1))
-	sc.Cfg["logger"] = int64(r.Pick(0, 1))
-	sc.Cfg["udpsock"] = int64(r.Pick(0, 0, 1))
+	sc.Cfg["logger"] = int64(r.Pick(0, 1, 1))
 	n := r.Range(1, 6)
 	if tier == "thorough" {
 		n = r.Range(1, 16)
 	}
 	for i := 0; i < n; i++ {
 		a := make([]int64, 17)
-		a[0] = int64(r.Pick(0, 1, 1, 1, 2, 2, 3, 3, 4, 5, 6))
-		a[1] = int64(r.Pick(0, 0, 0, 0, 1, 1, 2, 3, 3, 4, 5, 6, 7, 8, 9))
-		a[2] = int64(r.Pick(0, 0, 0, 0, 1, 1, 2, 3))
-		a[3] = int64(r.Pick(0, 1, 1, 2, 3, 4, 5))
-		a[4] = int64(r.Pick(0, 0, 0, 0, 0, 0, 0, 1, 2, 3, 4))
+		switch prof := r.Intn(10); {
+		case prof < 4: // well-formed, acceptable credentials
+			if sc.Cfg["auth"] == 1 {
+				a[0] = int64(r.Pick(1, 2, 3, 5))
+			} else {
+				a[0] = int64(r.Pick(0, 2, 3, 5))
+			}
+			a[2] = int64(r.Pick(0, 0, 0, 0, 0, 1, 1, 2))
+			a[3] = int64(r.Pick(0, 1, 2, 5))
+		case prof < 7: // a complete CONNECT/UDP request behind wrong, absent or malformed credentials
+			a[0] = int64(r.Pick(0, 1, 1, 2, 2, 3, 3, 5, 5))
+			a[1] = int64(r.Pick(1, 1, 2, 3, 3, 4, 5, 6, 7, 8, 9))
+			a[2] = int64(r.Pick(0, 0, 0, 1))
+			a[3] = int64(r.Pick(0, 1, 2))
+		default:
+			a[0] = int64(r.Pick(0, 1, 1, 1, 2, 2, 3, 3, 4, 5, 6))
+			a[1] = int64(r.Pick(0, 0, 0, 0, 1, 1, 2, 3, 3, 4, 5, 6, 7, 8, 9))
+			a[2] = int64(r.Pick(0, 0, 0, 0, 1, 1, 2, 3))
+			a[3] = int64(r.Pick(0, 1, 1, 2, 3, 4, 5))
+			a[4] = int64(r.Pick(0, 0, 0, 0, 1, 2, 3, 4))
+		}
 		if r.Chance(1, 4) {
 			a[5] = int64(r.Range(1, 60))
 		} else if r.Chance(1, 12) {
@@ -486,6 +509,13 @@ func c18GenSocks(r *hysim.Rand, tier string) *hysim.Script {
 		a[8] = int64(r.Pick(0, 0, 100, 400))
 		a[9] = int64(r.Pick(0, 1, 2, 64, 1000, 4096, 20000))
 		a[10] = int64(r.Pick(0, 1, 2, 64, 1000, 20000))
+		if a[7] > 0 && a[7] < 100 && tier != "thorough" {
+			for _, i := range []int{9, 10} {
+				if a[i] > 1500 {
+					a[i] = 1500 - int64(r.Intn(3))
+				}
+			}
+		}
 		a[11] = int64(r.Pick(0, 0, 1, 1, 2, 3))
 		a[12] = int64(r.Uint64() >> 1)
 		a[13] = int64(r.Pick(0, 0, 0, 0, 0, 1))
@@ -593,12 +623,11 @@ func (w *c18SWorld) one(s *Server, op hysim.Op) {
 		cfg.ReadDelay = 100
 		cfg.ReadDelayMax = time.Duration(c18Clamp(op.Arg(16), 0, 100000)) * time.Microsecond
 	}
+	// The stream's local address is deliberately not host:port: handleUDP would otherwise bind a real
+	// loopback UDP socket before it reaches HyClient.UDP() (tried: the bind/close syscalls inside the
+	// bubble made 3 of 300 seeds diverge between processes). handleUDP therefore stops with a
+	// "server failure" reply right after EventLogger.UDPRequest, which is where the gate is observed.
 	srvName := fmt.Sprintf("socks-srv%d", id)
-	if op.Arg(14) == 1 && x.Script.Get("udpsock", 0) == 1 {
-		// a host:port local address lets handleUDP get as far as HyClient.UDP() (it binds a
-		// loopback UDP socket first, closed again at once because the mock's UDP() fails)
-		srvName = "127.0.0.1:1080"
-	}
 	c.srv, c.cli = simnet.NewStreamPair(x, cfg, srvName, fmt.Sprintf("socks-cli%d", id))
 	x.Ev("conn%d stream=%s stage=%s authOK=%v cut=%d mode=%d lockstep=%d chunk=%d zero=%d", id, c18Hex(c.stream), c.exp.stage, c.exp.authOK, cut, c.mode, op.Arg(6), cfg.MaxChunk, cfg.ZeroReads)
 	hysim.Go("harness:dispatch", func() {
